@@ -10,7 +10,7 @@
 EXTENDS Integers, Sequences
 
 FnArity == [one |-> 0, two |-> 0,
-            id |-> 1, neg |-> 1, dbl |-> 1, inc |-> 1, step |-> 1, dsum |-> 1, loopinc |-> 1,
+            id |-> 1, neg |-> 1, dbl |-> 1, inc |-> 1, step |-> 1, dsum |-> 1, loopinc |-> 1, dflt |-> 1,
             add |-> 2, sub |-> 2, mul |-> 2, sel |-> 2, cut |-> 2,
             mad |-> 3]
 
@@ -24,6 +24,7 @@ FApply(fn, a) ==
       [] fn = "step" -> IF a[1] > 2 THEN 1 ELSE 0
       [] fn = "dsum" -> a[1]                  \* a data set is represented by the sum of its entries
       [] fn = "loopinc" -> a[1] + 1           \* Python twin uses a while loop: outside every translator's subset
+      [] fn = "dflt" -> 3 * a[1]              \* Python twin calls a helper leaving its defaulted parameter (3) unset
       [] fn = "add"  -> a[1] + a[2]
       [] fn = "sub"  -> a[1] - a[2]
       [] fn = "mul"  -> a[1] * a[2]
@@ -33,6 +34,8 @@ FApply(fn, a) ==
 
 \* functions whose Python twin no translator (symbolic, code generators, SBML) can represent
 Untranslatable == {"loopinc", "dsum"}
+\* functions a translator may either refuse or translate correctly (never translate wrongly)
+MaybeTranslatable == {"dflt"}
 
 FAdd(a, b) == a + b
 FMul(a, b) == a * b
